@@ -263,7 +263,8 @@ def kani_module(prog, want_names=True, want_rt=False, want_grid=False):
         for v in grid_variants(prog):
             name = oracle.canonical_names(prog, v)[0]
             nb = len(name.encode('utf-8'))
-            specs = ['{:%d}' % nb, '{:.2}', '{:*^%d.3}' % (nb + 4), '{:>%d}' % (nb + 2)]
+            nc = len(name)
+            specs = ['{:%d}' % nb, '{:.2}', '{:*^%d.3}' % (nb + 4), '{:>%d}' % (nb + 2), '{:^%d}' % (nc + 3), '{:%d.1}' % max(nc - 1, 1), '{:-<%d.%d}' % (nc + 1, max(nc - 1, 1))]
             checks = '\n'.join('        assert!(format!("%s", v).as_bytes() == format!("%s", %s).as_bytes());' % (sp, sp, rs_str(name)) for sp in specs)
             out.append('''    // bounded sample of format specs on the real Formatter (width = byte length, precision 2, fill/centre, right-align)
     #[kani::proof]
